@@ -87,6 +87,7 @@ type tunnelWorld struct {
 	proxies []*tProxy
 	byTag   map[string]*tConn
 	token   string
+	tcpMux  bool
 	tmu     sync.Mutex
 }
 
@@ -102,6 +103,7 @@ func worldTunnel(w *World) {
 	tlsOn := w.KnobBool("tls", 60)
 	customByte := w.KnobBool("tls_custom_first_byte", 30)
 	tcpMux := w.KnobBool("tcp_mux", 65)
+	tw.tcpMux = tcpMux
 	proto := []string{"tcp", "tcp", "websocket"}[w.Knob("protocol", 0, 2)]
 	pool := w.KnobPick("pool", 0, 0, 1, 2, 5)
 	nprox := w.KnobPick("nproxies", 1, 1, 2, 3)
@@ -419,7 +421,9 @@ func worldTunnel(w *World) {
 		defer c.mu.Unlock()
 		return c.bEndAt != 0
 	}
-	w.WaitUntil(90*time.Second, 200*time.Millisecond, func() bool {
+	// (with a bandwidth limit, what an endpoint wrote before it closed is still drained at the limited rate:
+	// the end of the stream follows the data, so the allowance includes the transfer time of everything written)
+	w.WaitUntil(90*time.Second+tw.bound(all), 200*time.Millisecond, func() bool {
 		for _, c := range all {
 			if c.bAccepted && !bEnded(c) {
 				return false
@@ -429,7 +433,7 @@ func worldTunnel(w *World) {
 	})
 	for _, c := range all {
 		if c.bAccepted && !bEnded(c) && !w.In.Faults {
-			tw.violate("close", "backend-conn-left-open", "conn%d (%s): backend side still open 90 s after the user side ended", c.id, c.p.name)
+			tw.violate("close", "backend-conn-left-open", "conn%d (%s): backend side still open long after the user side ended (90 s + transfer time of everything written)", c.id, c.p.name)
 		}
 	}
 	// bandwidth oracle
@@ -490,6 +494,12 @@ func (tw *tunnelWorld) note(p *tProxy, n int) {
 
 func (tw *tunnelWorld) checkBW(p *tProxy) {
 	if p.limitMode == "" || !tw.w.Net.Cfg().ConstLatency || tw.w.In.Faults {
+		return
+	}
+	// deliveries are measured at the endpoints: with stream multiplexing the receiving mux can hold a backlog of up
+	// to its stream window downstream of the limiter and release it at once, which is buffering, not the limiter
+	// (the bwlimit world measures at the limiter itself, with and without multiplexing)
+	if tw.tcpMux {
 		return
 	}
 	// the client-side limiter meters wire bytes: with compression the claim is about other bytes
